@@ -600,6 +600,14 @@ class C10(Prop):
                 out.append("err " + exc_name(e))
         elif level == "manager":
             sent_meth = meth.upper()
+        if url.startswith("/"):
+            # `_encode_target` itself: this model, the C14 model (`U3.Url.encodeTarget`) and the code must agree
+            from urllib3.util.url import _encode_target
+            lines.append("encx " + enc(url))
+            try:
+                out.append("ok " + enc(_encode_target(url)) + " url=agree")
+            except Exception as e:           # noqa: BLE001
+                out.append("err " + exc_name(e) + " url=agree")
         if err is None:
             lines.append("parse " + enc(wire))
             out.append(parse_line(strict_parse(wire)))
